@@ -30,7 +30,7 @@ func init() {
 			"(2) error means no effect, success means once — no exit between a successful append and the insert, every feasible exit after the insert returns nil, the retry closure is re-run only on ErrWALRotating, which every Append* returns before consuming a number or writing a byte; " +
 			"(3) the stamp given to the memtable is the very number the log assigned; (4) WAL pointer discipline — Manager.wal is accessed atomically on the write path; (5) the retry wrapper's decision table (one call on success or on another error, an error after exhausted retries, re-run only on errors every Append* returns before any effect); (6) immutable memtables leave the pool (the read path) only into the flush path; (7) shared with C08: the sequence counter is handed over to the new log at rotation (a write acknowledged after a flush is never shadowed by an older version with a higher stamp).",
 		NotDecided: "everything else: real-time order, stale reads across rotation, all schedules with background flush/compaction.",
-		Rules:      []func(*Ctx, *Reporter){ruleStSingleWriter, ruleStEffectOnce, ruleStStamps, ruleWalRotatingNoEffect, ruleStWalPointer, ruleLayersLeaveOnly, ruleStRotationSeqOnly},
+		Rules:      []func(*Ctx, *Reporter){ruleStSingleWriter, ruleStEffectOnce, ruleStStamps, ruleWalRotatingNoEffect, ruleStWalPointer, ruleLayersLeaveOnly, ruleStRotationSeqOnly, ruleWalStatusUnderLock},
 	})
 	register(&PropertyDef{
 		ID: "C08",
@@ -40,7 +40,7 @@ func init() {
 			"(4) recovery restores the counter to replay-maximum+1 on every success path with a non-zero maximum, and the maximum is a running maximum; " +
 			"(5) the memtable stamp and the reported last sequence are the number the log assigned (batch entries share the batch's number because the log advances by one per batch); lastSeqNum is written only on the write path and by recovery.",
 		NotDecided: "the actual numbers in a log directory after arbitrary histories; interactions between WAL retention and sequence numbers stored in SSTables.",
-		Rules:      []func(*Ctx, *Reporter){ruleWalMonotone, ruleStRotationSeqOnly, ruleStRecovery, ruleStStamps},
+		Rules:      []func(*Ctx, *Reporter){ruleWalMonotone, ruleStRotationSeqOnly, ruleStRecovery, ruleStStamps, ruleWalStatusUnderLock},
 	})
 }
 
@@ -89,7 +89,7 @@ func init() {
 			"(6) flush writes every collected entry, tombstones included, with its own sequence number; the tombstone marker constant is shared by block writer and reader; " +
 			"(7) the SSTable list is given a recency order when loaded from disk; (8) a successful transactional Put/Delete has buffered exactly that operation and pending operations leave the buffer only through Clear; immutable memtables leave the pool only into the flush path; (9) shared with C09: the buffered writer is never replaced without a flush and the fragment writer/reader agree on chunk boundaries (large values survive a reopen).",
 		NotDecided: "that the bytes returned equal the bytes put for every program (values); block/index seek landing inside SSTables (value-level binary search — the pinned tree gets this wrong, declared under C11); effects of memtable-size configurations.",
-		Rules:      []func(*Ctx, *Reporter){ruleLayerOrder, ruleTombstoneShortCircuit, ruleMemComparator, ruleMemFind, ruleMemInsert, ruleFlushRules, ruleStStamps, ruleEmptyNotDeleted, ruleTombstoneMarker, ruleRecencyAtLoad, ruleTxOpsBuffered, ruleWalNoBufferDrop, ruleWalFragmentation},
+		Rules:      []func(*Ctx, *Reporter){ruleLayerOrder, ruleTombstoneShortCircuit, ruleMemComparator, ruleMemFind, ruleMemInsert, ruleFlushRules, ruleStStamps, ruleEmptyNotDeleted, ruleTombstoneMarker, ruleRecencyAtLoad, ruleTxOpsBuffered, ruleWalNoBufferDrop, ruleWalFragmentation, ruleSortKeysFromSortedSlice},
 	})
 	register(&PropertyDef{
 		ID: "C05",
